@@ -669,6 +669,199 @@ def r5_exact(ctx, F):
                     "example": {str(h): describe(accepted[h][0]) for h in sorted(accepted)[:3]}})
 
 
+def r4b_provider_order(ctx, F):
+    """the advice provider's stack operations agree with each other: pop_stack_word returns what four pop_stack calls return, in
+    that order; pop_stack_dword returns two consecutive words; push_stack(Word) followed by pop_stack_word returns the word,
+    push_stack(Value) followed by pop_stack the value (interpretation on a stack of symbolic elements)"""
+    from .mirsym import Interp, Agg, Ptr, Opaque, Unanalysable, PanicReached, deref
+    PRE = r"^miden_processor::host::advice::providers::BaseAdviceProvider@AdviceProvider::"
+    adt = F.adt(r"^miden_processor::host::advice::providers::BaseAdviceProvider$")
+    src = F.adt(r"^miden_processor::host::advice::source::AdviceSource$")
+    fields = [f["name"] for f in adt["variants"][0]["fields"]]
+    fn = lambda n: F.fn(PRE + n + "$")
+
+    def provider(elems):
+        vals = {"stack": Agg(list(elems), "vec")}
+        return Agg([vals.get(n, Opaque(n)) for n in fields], "adt", adt["id"], adt["variants"][0]["name"])
+
+    def ok_val(r):
+        if isinstance(r, Agg) and r.variant == "Ok":
+            return r.items[0]
+        raise Unanalysable("unexpected result %r" % (r,))
+    flat = lambda v: [repr(x) for x in (v.items if isinstance(v, Agg) else [v])]
+    sym = [Poly.var("a%d" % i) for i in range(10)]     # a9 is on top
+    proc = Ptr([Opaque("process")], 0)
+    ctx.inst(key="advice-provider", nontrivial=True)
+    try:
+        I = Interp(F)
+        procmodel.install_field(I)
+        I.overrides.insert(0, (re.compile(r"ProcessState::clk$"), lambda I_, a, f: 0))
+        p1 = provider(sym)
+        singles = [repr(ok_val(I.call(fn("pop_stack").id, [Ptr([p1], 0), proc]))) for _ in range(8)]
+        p2 = provider(sym)
+        w = flat(ok_val(I.call(fn("pop_stack_word").id, [Ptr([p2], 0), proc])))
+        rest2 = [repr(x) for x in p2.items[fields.index("stack")].items]
+        p3 = provider(sym)
+        dw = ok_val(I.call(fn("pop_stack_dword").id, [Ptr([p3], 0), proc]))
+        dwf = [flat(x) for x in dw.items]
+        p4 = provider(sym[:2])
+        word = Agg([Poly.var("w%d" % i) for i in range(4)], "array")
+        I.call(fn("push_stack").id, [Ptr([p4], 0), Agg([word], "adt", src["id"], "Word")])
+        back = flat(ok_val(I.call(fn("pop_stack_word").id, [Ptr([p4], 0), proc])))
+        I.call(fn("push_stack").id, [Ptr([p4], 0), Agg([Poly.var("v")], "adt", src["id"], "Value")])
+        backv = repr(ok_val(I.call(fn("pop_stack").id, [Ptr([p4], 0), proc])))
+        rest4 = [repr(x) for x in p4.items[fields.index("stack")].items]
+    except (Unanalysable, PanicReached) as e:
+        ctx.violation("UNANALYSABLE|advice-provider", "processor/src/host/advice/providers.rs", str(e)[:300])
+        return
+    checks = [("pop_stack order", singles[:4] == ["a9", "a8", "a7", "a6"], "four pop_stack calls return %s; the top of the advice stack is its last element" % singles[:4]),
+              ("pop_stack_word vs pop_stack", w == singles[:4] and rest2 == ["a%d" % i for i in range(6)], "pop_stack_word returns %s and leaves %s; four pop_stack calls return %s" % (w, rest2, singles[:4])),
+              ("pop_stack_dword vs pop_stack_word", dwf == [singles[:4], singles[4:8]], "pop_stack_dword returns %s; two pop_stack_word calls return %s" % (dwf, [singles[:4], singles[4:8]])),
+              ("push_stack(Word) round trip", back == ["w0", "w1", "w2", "w3"], "push_stack(Word [w0..w3]) followed by pop_stack_word returns %s" % back),
+              ("push_stack(Value) round trip", backv == "v" and rest4 == ["a0", "a1"], "push_stack(Value v) followed by pop_stack returns %s and leaves %s" % (backv, rest4))]
+    for what, ok, msg in checks:
+        ctx.oblig(ok)
+        if not ok:
+            ctx.violation("advice-order|%s" % what.replace(" ", "-"), "processor/src/host/advice/providers.rs", msg)
+
+
+def r6_honest_injectors(ctx, F):
+    """the honest advice injectors push what the in-VM checks accept: U32Clz/Ctz/Clo/Cto push leading_zeros / trailing_zeros /
+    leading_ones / trailing_ones of the top operand taken as u32 (and fail on a non-u32 operand), ILog2 pushes floor(log2) of the
+    top operand, and U64Div pushes [r_hi, r_lo, q_hi, q_lo] for q = floor(a / b), r = a - q * b computed from the operand limbs
+    in the documented positions.  Each injector is interpreted with symbolic stack items; the pushed terms and the recorded path
+    guards are then evaluated at boundary operands against the integer definition."""
+    from .mirsym import Interp, Agg, Ptr, Opaque, Unanalysable, PanicReached, deref, enumerate_paths
+    from .execmodel import consistent
+    from . import execmodel
+    INJ = r"^miden_processor::host::advice::injectors::adv_stack_injectors::"
+    BITOPS = {
+        "leading_zeros": lambda x, w: w - x.bit_length(),
+        "trailing_zeros": lambda x, w: w if x == 0 else (x & -x).bit_length() - 1,
+        "leading_ones": lambda x, w: w - (x ^ (2 ** w - 1)).bit_length(),
+        "trailing_ones": lambda x, w: ((x + 1) & -(x + 1)).bit_length() - 1 if x != 2 ** w - 1 else w,
+        "ilog2": lambda x, w: x.bit_length() - 1 if x else None,
+    }
+
+    def evx(x, env):
+        """execmodel.ev extended with the width-tagged bit-count terms introduced below"""
+        if isinstance(x, Term) and len(x.args) == 1:
+            m = re.match(r"^(leading_zeros|trailing_zeros|leading_ones|trailing_ones|ilog2)(32|64)$", x.op)
+            if m:
+                v = evx(x.args[0], env)
+                return None if v is None else BITOPS[m.group(1)](v % 2 ** int(m.group(2)), int(m.group(2)))
+            if x.op in ("as_int", "as_u64", "as_usize", "as_u32", "as_u16", "as_u8"):
+                v = evx(x.args[0], env)
+                return None if v is None else v % 2 ** {"as_u32": 32, "as_u16": 16, "as_u8": 8}.get(x.op, 64)
+        if isinstance(x, Term) and len(x.args) == 2:
+            va, vb = evx(x.args[0], env), evx(x.args[1], env)
+            if va is None or vb is None:
+                return None
+            return execmodel.ev(Term(x.op, va, vb), env)
+        if isinstance(x, Poly) and x.vars():
+            sub = {}
+            for v in x.vars():
+                if v in procmodel.FELT_TERMS:
+                    val = evx(procmodel.FELT_TERMS[v], env)
+                    if val is None:
+                        return None
+                    sub[v] = val % execmodel.P_
+            return execmodel.ev(x, dict(env, **sub))
+        return execmodel.ev(x, env)
+    holder = {}
+
+    def make():
+        I = Interp(F)
+        procmodel.install_field(I)
+        pushed = []
+        holder["pushed"] = pushed
+        ov = lambda rx, m: I.overrides.insert(0, (re.compile(rx), m))
+        ov(r"ProcessState::get_stack_item$", lambda I_, a, f: Poly.var("s%d" % a[1]) if isinstance(a[1], int) else Opaque("item"))
+        ov(r"ProcessState::clk$", lambda I_, a, f: 0)
+        ov(r"AdviceProvider::push_stack$", lambda I_, a, f: (pushed.append(a[1]), Agg([Agg([], "tuple")], "adt", "core::result::Result", "Ok"))[1])
+        for ty in ("u32", "u64"):
+            for nm in BITOPS:
+                ov(r"^core::num::%s::%s$" % (ty, nm), lambda I_, a, f, nm=nm, ty=ty: Term(nm + ty[1:], a[0]))
+        return I
+
+    def paths(fn):
+        out = []
+        for I, res, exc in enumerate_paths(make, lambda I: I.call(fn.id, [Ptr([Opaque("provider")], 0), Ptr([Opaque("process")], 0)])):
+            if exc is not None:
+                if isinstance(exc, PanicReached):
+                    out.append(("panic", list(I.path), [], exc))
+                    continue
+                raise exc
+            vals = []
+            for x in holder["pushed"]:
+                x = deref(x)
+                vals.append(x.items[0] if isinstance(x, Agg) and x.variant == "Value" else x)
+            out.append(("ok" if isinstance(res, Agg) and res.variant == "Ok" else "err", list(I.path), vals, res))
+        return out
+
+    def decide(fname, fn, envs, reference):
+        """at every env exactly the paths whose guards hold decide the outcome: `reference(env)` is the expected pushed list, or
+        None when the injector must fail"""
+        try:
+            ps = paths(fn)
+        except Unanalysable as e:
+            ctx.violation("UNANALYSABLE|injector|%s" % fname, fn.loc(), str(e)[:300])
+            return
+        bad = None
+        for env in envs:
+            live = [p for p in ps if all(execmodel.guard_holds_with(evx, c, val, env) is not False for c, val, loc in p[1])]
+            want = reference(env)
+            if want == "any":
+                continue
+            for kind, guards, vals, res in live:
+                if any(execmodel.guard_holds_with(evx, c, val, env) is None for c, val, loc in guards):
+                    bad = "a path guard is undetermined at %s" % env
+                    break
+                if want is None:
+                    if kind == "ok":
+                        bad = "succeeds at %s, where the operand is invalid" % env
+                elif kind != "ok":
+                    bad = "%s at the valid operands %s" % ("panics" if kind == "panic" else "fails", env)
+                else:
+                    got = [evx(v, env) for v in vals]
+                    if got != want:
+                        bad = "at %s pushes %s, the definition gives %s" % (env, got, want)
+                if bad:
+                    break
+            if not live and not bad and want != "any":
+                bad = "no path covers %s" % env
+            if bad:
+                break
+        ctx.oblig(bad is None)
+        if bad:
+            ctx.violation("injector-value|%s" % fname, fn.loc(), "%s: %s" % (fname, bad))
+    U32S = [0, 1, 2, 3, 5, 6, 0x80000000, 0xFFFFFFFF, 0xFFFF0000, 0x0000FFFF, 0x7FFFFFFF, 0xFFFFFFFE, 0x00010000, 0x12345678, 0xF0F0F0F0]
+    for fname, op in (("push_leading_zeros", "leading_zeros"), ("push_trailing_zeros", "trailing_zeros"), ("push_leading_ones", "leading_ones"), ("push_trailing_ones", "trailing_ones")):
+        fn = F.fn(INJ + fname + "$")
+        ctx.inst(key=fname, nontrivial=True)
+        decide(fname, fn, [{"s0": v} for v in U32S + [2 ** 32, 2 ** 32 + 1, 2 ** 63, execmodel.P_ - 1]],
+               lambda env, op=op: [BITOPS[op](env["s0"], 32)] if env["s0"] < 2 ** 32 else None)
+    fn = F.fn(INJ + "push_ilog2$")
+    ctx.inst(key="push_ilog2", nontrivial=True)
+    decide("push_ilog2", fn, [{"s0": v} for v in U32S + [2 ** 32, 2 ** 32 + 1, 2 ** 63, 2 ** 63 - 1, 2 ** 63 + 1, execmodel.P_ - 1]],
+           lambda env: [env["s0"].bit_length() - 1] if env["s0"] else None)
+    fn = F.fn(INJ + "push_u64_div_result$")
+    ctx.inst(key="push_u64_div_result", nontrivial=True)
+    L = [0, 1, 2, 0xFFFFFFFF, 0x80000000, 0x12345678]
+    envs = [{"s0": bh, "s1": bl, "s2": ah, "s3": al} for bh in (0, 1, 0xFFFFFFFF, 0x9ABCDEF0) for bl in L for ah in (0, 3, 0xFFFFFFFF, 0x0FEDCBA9) for al in L]
+    envs += [{"s0": 2 ** 32, "s1": 1, "s2": 1, "s3": 1}, {"s0": 1, "s1": 2 ** 32, "s2": 1, "s3": 1}, {"s0": 1, "s1": 1, "s2": 2 ** 32 + 5, "s3": 1}, {"s0": 1, "s1": 1, "s2": 1, "s3": execmodel.P_ - 1}]
+
+    def divref(env):
+        if any(env[k] >= 2 ** 32 for k in env):
+            return "any"            # limbs are validated in the VM (C09-R5 / C16), not by the injector
+        b, a_ = (env["s0"] << 32) + env["s1"], (env["s2"] << 32) + env["s3"]
+        if b == 0:
+            return None
+        q, r = a_ // b, a_ % b
+        return [r >> 32, r & 0xFFFFFFFF, q >> 32, q & 0xFFFFFFFF]
+    decide("push_u64_div_result", fn, envs, divref)
+
+
 def run(ctx, F):
     ctx.trusted += ["rustc MIR via mirfacts", "lowering extractor and operation model (per-operation dependency summaries)", "vlib/masm.py integer model for the stdlib division routines",
                     "field facts: inverses in F_p[x]/(x^2 - x + 2) are unique; a = q*b + r with 0 <= r < b determines q, r"]
@@ -678,4 +871,6 @@ def run(ctx, F):
     ctx.run_rule("C09-R2", "u64 div/mod/divmod: the assertions imply a = q*b + r and r < b, and all advice limbs are range-checked", r2_division, F)
     ctx.run_rule("C09-R3", "op_mpverify / op_mrupdate compare the computed root with the stack's root and fail before writing; mtree_* lowerings contain the verifying operation", r3_merkle, F)
     ctx.run_rule("C09-R5", "u32clz/ctz/clo/cto and ilog2: for every hint value, the set of operands for which the lowered check sequence completes equals the set of operands whose count is that value (bit-cube comparison over all composed paths)", r5_exact, F)
+    ctx.run_rule("C09-R4b", "advice provider: pop_stack_word = four pop_stack, pop_stack_dword = two pop_stack_word, push_stack(Word/Value) round-trips through pop (interpreted on symbolic stacks)", r4b_provider_order, F)
+    ctx.run_rule("C09-R6", "honest injectors: U32Clz/Ctz/Clo/Cto, ILog2 and U64Div push the values (and in the order) the in-VM checks accept", r6_honest_injectors, F)
     ctx.run_rule("C09-R4", "advice pops: adv_push.n = n AdvPop (1..16), adv_loadw = AdvPopW with the documented element order, adv_pipe = Pipe with MStream's order", r4_pops, F)
